@@ -27,6 +27,7 @@ import (
 	"regexp"
 	"strings"
 	"sync"
+	"unicode/utf8"
 
 	"github.com/sdcio/yang-parser/xpath/xutils"
 	log "github.com/sirupsen/logrus"
@@ -415,7 +416,8 @@ func stringLength(ctx *context, args []Datum) (retNum Datum) {
 
 	lit0 := args[0].Literal("string-length()")
 
-	return NewNumDatum(float64(len(lit0)))
+	// XPath 1.0 4.2: the number of characters, not of bytes
+	return NewNumDatum(float64(utf8.RuneCountInString(lit0)))
 }
 
 // Returns substring of arg[0] starting with the character at position arg[1],
